@@ -4,7 +4,7 @@ from __future__ import annotations
 import ast
 
 from sa import flow
-from sa.model import AnalysisError, dotted, unparse
+from sa.model import AnalysisError, dotted, names_in, unparse
 from sa.rules import LEVEL_TEXT, rule
 from sa.rules.util import is_self_attr, iter_body_nodes
 
@@ -178,6 +178,24 @@ def r14d(ctx):
             "_expr.optimize_blockwise_fusion:done-flag",
             mod.loc(r),
             "'done' is evaluated after the traversal queued new roots" if fresh else f"the 'no more roots' flag `{ast.unparse(flag)}` is computed before the group traversal appends new roots: fusion stops early, so optimize() is not idempotent",
+        )
+    # the dependents map must record EVERY consumer of a fusable node (the group condition subtracts group members from it;
+    # a consumer that is not itself fusable - a reduction, a shuffle - is exactly the one that must keep the node out of a group)
+    rec = []
+    for pt in flow.walk(fp):
+        for n in ast.walk(pt.stmt) if isinstance(pt.stmt, ast.Expr) else []:
+            if isinstance(n, ast.Call) and isinstance(n.func, ast.Attribute) and n.func.attr == "add" and isinstance(n.func.value, ast.Subscript) and dotted(n.func.value.value) == "dependents":
+                rec.append((pt, n))
+    if not rec:
+        raise AnalysisError("anchor vanished: dependents[...].add(...) in _fusion_pass")
+    for pt, n in rec:
+        consumer = n.args[0] if n.args else None
+        cname = names_in(consumer) if consumer is not None else set()
+        restricting = [ast.unparse(g) for g, pol in pt.guards if pol and (names_in(g) & cname) and ("dependencies" in ast.unparse(g) or "is_valid_blockwise_op" in ast.unparse(g))]
+        (ctx.bad if restricting else ctx.ok)(
+            "_expr.optimize_blockwise_fusion:dependents-complete",
+            mod.loc(n),
+            f"`{ast.unparse(n)}` is only reached under `{restricting[0]}`: consumers that are not fusable themselves are no longer recorded, so a node feeding a non-blockwise consumer is fused away from it" if restricting else "every consumer of a fusable operand is recorded as its dependent",
         )
     (ctx.ok if good and sub_ok and size_ok else ctx.bad)(
         "_expr.optimize_blockwise_fusion:substitute",
